@@ -32,6 +32,7 @@ LENGTH_SINKS = {
     "ClipperBase::AddPaths": {"paths": 1},
 }
 D_GEOM = re.compile(r'(PathsD|PathD\b|RectD|CPathsD|CPathD|CRectD|Paths<double>|Path<double>|Rect<double>|CRect<double>|double \*)')
+I_GEOM = re.compile(r'(Paths64|Path64\b|Rect64|Point64|Paths<long>|Path<long>|Rect<long>|Point<long>|Paths<int64_t>|Path<int64_t>)')
 LEN_NAMES = {"delta", "arc_tolerance"}
 
 
@@ -156,6 +157,20 @@ class Dim:
         else:
             for a in args:
                 self.dim(a)
+        if g is not None and not sink and ret is None and name not in IDENTITY and g.name not in IDENTITY:
+            # the integer API is homogeneous in length: integer geometry in, integer geometry of the same dimension out; what a wrapper
+            # hands to any of its functions must be in scaled units
+            gd = []
+            for i, a in enumerate(args):
+                if i < len(g.params) and I_GEOM.search(qt(g.params[i]) or ""):
+                    d = self.dim(a)
+                    gd.append(d)
+                    if d is not None and d != 1:
+                        self.problems.append(("argument '%s' of %s must be in scaled integer units (S^1) but %s has dimension S^%d"
+                                              % (g.params[i].get("name"), qual, canon(a)[:50], d), c))
+            if gd and I_GEOM.search(g.sig.split("(")[0]):
+                known = [d for d in gd if d is not None]
+                ret = (1 if 1 in known else known[0]) if known else None
         if name in IDENTITY or (g is not None and g.name in IDENTITY):
             ds = [self.dim(a) for a in args]
             ds = [d for d in ds if d is not None]
@@ -186,7 +201,10 @@ class Dim:
                 from ..astq import if_parts
                 cond, then, els = if_parts(s)
                 self.dim(cond)
+                em = _empty_params(cond)
+                self.known_empty = getattr(self, "known_empty", frozenset()) | em
                 stmt(then)
+                self.known_empty = self.known_empty - em
                 stmt(els)
             elif k in ("ForStmt", "WhileStmt", "DoStmt", "CXXForRangeStmt", "SwitchStmt"):
                 for x in kids(s):
@@ -207,7 +225,7 @@ class Dim:
                     while r1.get("kind") in ("CXXConstructExpr",) and len(kids(r1)) == 1:
                         r1 = strip(kids(r1)[0])
                     if r1.get("kind") == "DeclRefExpr" and r1.get("referencedDecl", {}).get("kind") == "ParmVarDecl" and \
-                            D_GEOM.search(qt(r1) or "") :
+                            D_GEOM.search(qt(r1) or "") and r1["referencedDecl"].get("id") not in getattr(self, "known_empty", ()):
                         self.problems.append(("returns its argument '%s' unchanged: the result of the floating-point API is the integer operation's "
                                               "result on the scaled and rounded input, divided by the scale - the caller's doubles have not been through the "
                                               "integer grid" % r1["referencedDecl"].get("name"), s))
@@ -223,6 +241,44 @@ class Dim:
 
         stmt(f.body)
         return self.problems
+
+
+def _empty_params(cond):
+    """Parameters a condition establishes to be empty containers when it holds: p.empty(), !p.size(), p.size() == 0,
+    and conjunctions/disjunctions of one parameter's tests (an empty path list has nothing to round)."""
+    c = strip(cond)
+    k = c.get("kind")
+
+    def recv(call, names):
+        ks = kids(call)
+        if call.get("kind") != "CXXMemberCallExpr" or len(ks) != 1:
+            return None
+        m = strip(ks[0])
+        if m.get("kind") != "MemberExpr" or m.get("name") not in names:
+            return None
+        o = strip(kids(m)[0])
+        if o.get("kind") == "DeclRefExpr" and o.get("referencedDecl", {}).get("kind") == "ParmVarDecl":
+            return o["referencedDecl"].get("id")
+        return None
+
+    r = recv(c, ("empty",))
+    if r:
+        return frozenset([r])
+    if k == "UnaryOperator" and c.get("opcode") == "!":
+        r = recv(strip(kids(c)[0]), ("size",))
+        return frozenset([r]) if r else frozenset()
+    if k == "BinaryOperator" and c.get("opcode") == "==":
+        a, b = (strip(x) for x in kids(c))
+        for x, y in ((a, b), (b, a)):
+            if y.get("kind") == "IntegerLiteral" and y.get("value") == "0":
+                r = recv(x, ("size",))
+                if r:
+                    return frozenset([r])
+        return frozenset()
+    if k == "BinaryOperator" and c.get("opcode") == "&&":
+        a, b = kids(c)
+        return _empty_params(a) | _empty_params(b)
+    return frozenset()
 
 
 def wrappers(db):
